@@ -78,8 +78,8 @@ def gen_image_attrs(rng, itype=None, iformat=None, force=None):
     return a
 
 
-def gen_description(rng, force=None, max_images=None, type_cycle=None):
-    comp = FC.gen_compose(rng)
+def gen_description(rng, force=None, max_images=None, type_cycle=None, hostile=True):
+    comp = FC.gen_compose(rng, hostile=hostile)
     if comp["id"] == "<create>":
         comp["id"] = "Fedora-22-%s%s.%d" % (comp["date"], domains.COMPOSE_TYPE_SUFFIX[comp["type"]], comp["respin"] % 1000)
     variants = rng.sample(VARIANT_POOL, rng.randint(1, 4))
